@@ -1,7 +1,7 @@
 #!/bin/sh
 # usage: tools/mut.sh <file-in-graphtage> <sed-expr> <contracts-module> [targets...]   (scratch copy under mktemp)
-d=$(mktemp -d /tmp/mutXXXX); cp -r /repo/graphtage $d/; f=$1; e=$2; m=$3; shift 3
+d=$(mktemp -d /tmp/mutXXXX); cp -r ${SRC:-/repo}/graphtage $d/; f=$1; e=$2; m=$3; shift 3
 sed -i "$e" $d/graphtage/$f
-if cmp -s $d/graphtage/$f /repo/graphtage/$f; then echo "MUTATION DID NOT APPLY: $e"; fi
+if cmp -s $d/graphtage/$f ${SRC:-/repo}/graphtage/$f; then echo "MUTATION DID NOT APPLY: $e"; fi
 cd /verif && .venv/bin/python -m pyvc.run --repo $d --budget 8000 $m "$@" 2>&1 | cut -c1-200 | grep -v discharged
 rm -rf $d
